@@ -17,13 +17,16 @@ def node_bytes(n, chosen, probe_cp, level, last):
         # the transport charset wins, so the signature decodes to three junk characters in front of the first statement: a
         # sacrificial rule takes that damage (C04) and leaves the probe rule intact
         body = "x { left: 0 }\n" + body
+    if n["mark"] == "bom16":
+        # the first character after the signature has a zero LOW byte (U+0100)
+        return codecs.BOM_UTF16_LE + ("\u0100, " + body).encode("utf-16-le")
     data = body.encode(chosen)
     if n["mark"] == "bom":
         data = BOM + data
     return data
 
 
-PROBE = {"iso-8859-1": 233, "utf-8": 233, "iso-8859-5": 1103, "koi8-r": 1103}
+PROBE = {"iso-8859-1": 233, "utf-8": 233, "iso-8859-5": 1103, "koi8-r": 1103, "utf-16": 1103}
 
 
 def run_edit(row):
@@ -79,8 +82,9 @@ def run_chain(row, want_sheet=False):
         log.append(name)
         return files.get(name)
 
-    rootenc = root["override"] if root["override"] != "none" else (root["mark"][3:] if root["mark"] != "none" else "utf-8")
-    head = '@charset "%s";\n' % root["mark"][3:] if root["mark"] != "none" else ""
+    upper = root["mark"].startswith("upper:")
+    rootenc = root["override"] if root["override"] != "none" else (root["mark"][3:] if root["mark"] != "none" and not upper else "utf-8")
+    head = '@charset "%s";\n' % root["mark"][3:] if root["mark"] != "none" and not upper else ('@CHARSET "%s";\n' % root["mark"][6:] if upper else "")
     text = head + '@import "n1.css";\nroot { left: 0 }\n'
     src = text if root["text"] else text.encode(rootenc)
     p = cssutils.CSSParser(fetcher=fetcher)
@@ -104,7 +108,8 @@ def run_chain(row, want_sheet=False):
                     probe = [ord(c) for c in v.strip('"')]
         levels.append({"found": bool(r.hrefFound), "enc": child.encoding if child is not None else "none", "probe": probe})
         s = child
-    return {"out": "ok", "rootenc": sheet.encoding, "levels": levels, "fetchlog": log}
+    out2, enc2 = outcome(lambda: cssutils.CSSParser(fetcher=lambda u: (None, "")).parseString(sheet.cssText).encoding)
+    return {"out": "ok", "rootenc": sheet.encoding, "rootenc2": enc2 if out2 == "ok" else "#" + out2, "levels": levels, "fetchlog": log}
 
 
 POS = {"class": ".x%s { left: 0 }", "string": 'a { content: "x%sy" }', "url": "a { background: url(x%s.png) }",
